@@ -882,5 +882,5 @@ func TestReal(t *testing.T) {
 }
 
 func TestReplay(t *testing.T) {
-	core.Replay(t, intCheck, comboCheck, tagCheck, messageCheck, realCheck, arrayCheck, externalCheck)
+	core.Replay(t, intCheck, comboCheck, tagCheck, messageCheck, realCheck, arrayCheck, externalCheck, externLimitCheck)
 }
